@@ -14,7 +14,7 @@ func init() {
 	register(&propDef{
 		ID: "C13",
 		Meta: propMeta{
-			Explanation: "Decides the write-then-rename protocol structurally: (R13a) inside lib/atomicfile the destination name is used by exactly one filesystem call, os.Rename(temp, dest), which is preceded by a checked Close of the temp file and whose success guards Commit's nil return; nothing removes, truncates or creates the destination; the temp file is created in filepath.Dir(dest); Close removes the temp; a direct os.Create happens only for special files. (R13b) typestate over every acquisition of an AtomicFile in the module: on every path to a return the file is committed, closed (incl. deferred), returned or stored — so no temp file survives a handled error; and nothing is written after Commit. (R13c) functions reachable from any Transformer.Apply / binpatch Apply never create or truncate files except through lib/atomicfile, and the source *os.File is written only on the in-place path guarded by canOverwrite. (R13d) errors of the copy/write calls in the rewrite path are propagated before Commit.",
+			Explanation: "Decides the write-then-rename protocol structurally: (R13a) inside lib/atomicfile the destination name is used by exactly one filesystem call, os.Rename(temp, dest), which is preceded by a checked Close of the temp file and whose success guards Commit's nil return; nothing removes, truncates or creates the destination; the temp file is created in filepath.Dir(dest); Close removes the temp; a direct os.Create happens only for special files. (R13b) typestate over every acquisition of an AtomicFile in the module: on every path to a return the file is committed, closed (incl. deferred), returned or stored — so no temp file survives a handled error; and nothing is written after Commit. (R13c) functions reachable from any Transformer.Apply / binpatch Apply never create or truncate files except through lib/atomicfile, and the source *os.File is written only on the in-place path guarded by canOverwrite. (R13d) errors of the copy/write calls in the rewrite path are propagated before Commit. (R13e) between acquiring an AtomicFile and committing it, the error of every fallible step is examined and its failure edge cannot reach Commit.",
 			NotDecided:  "what the kernel does at each crash instant (rename atomicity and ordering are assumed from POSIX); Windows semantics; the 4-byte in-place Fixup the sign commands run on the already-committed output.",
 			Assumptions: []string{"rename(2) within one directory is atomic and replaces the destination", "a finalizer is not a handled-error cleanup (it may never run)"},
 		},
